@@ -276,27 +276,27 @@ theorem RSL_nil (fuel : Nat) : signature.ReadSignatureList fuel [] = ([], zeroL,
 def RSLtail (fuel : Nat) (s : signature.SignatureList) (f : List UInt8) :
     List UInt8 × signature.SignatureList × GoErr :=
   if s.Size < 16 then
-    (f, zeroL, some "fmt.Errorf:signature size %d is smaller than EFI_SIGNATURE_DATA")
+    (f, zeroL, some "fmt.Errorf")
   else if (decide (UInt64.ofNat s.ListSize.toNat < (28 : UInt64) + UInt64.ofNat s.HeaderSize.toNat) ||
       (((s.ListSize - 28) - s.HeaderSize) % s.Size != 0)) = true then
-    (f, zeroL, some "fmt.Errorf:signature list size %d does not match its header and signature sizes")
+    (f, zeroL, some "fmt.Errorf")
   else
     let r := signature.ReadSignatureList.parseList fuel s f (s.ListSize - 28) [] s.Size
     let fin : List UInt8 × signature.SignatureList × GoErr :=
       if r.2.2.2.isSome = true then (r.1, zeroL, r.2.2.2) else (r.1, { s with Signatures := r.2.2.1 }, none)
     let sig := (signature.ValidEFISignatureSchemes.lookup s.SignatureType).getD ""
     if sig = "X509" then
-      if s.HeaderSize != 0 then (f, zeroL, some "fmt.Errorf:unexpected HeaderSize for x509 cert. Should be 0")
+      if s.HeaderSize != 0 then (f, zeroL, some "fmt.Errorf")
       else fin
     else if sig = "SHA256" then
-      if s.HeaderSize != 0 then (f, zeroL, some "fmt.Errorf:unexpected HeaderSize for SHA256. Should be 0")
-      else if s.Size != 48 then (f, zeroL, some "fmt.Errorf:unexpected signature size for SHA256. Should be 16+32")
+      if s.HeaderSize != 0 then (f, zeroL, some "fmt.Errorf")
+      else if s.Size != 48 then (f, zeroL, some "fmt.Errorf")
       else fin
     else if sig = "EXTERNAL MANAGEMENT" then
-      if s.HeaderSize != 0 then (f, zeroL, some "fmt.Errorf:unexpected HeaderSize for EXTERNAL MANAGEMENT. Should be 0")
-      else if s.Size != 17 then (f, zeroL, some "fmt.Errorf:unexpected signature size for EXTERNAL MANAGEMENT. Should be 16+1")
+      if s.HeaderSize != 0 then (f, zeroL, some "fmt.Errorf")
+      else if s.Size != 17 then (f, zeroL, some "fmt.Errorf")
       else fin
-    else (f, zeroL, some "fmt.Errorf:not implemented signature list certificate: %s")
+    else (f, zeroL, some "fmt.Errorf")
 
 theorem RSL_hdr (fuel : Nat) (ty a b c r4 : List UInt8) (hty : ty.length = 16) (ha : a.length = 4)
     (hb : b.length = 4) (hc : c.length = 4) :
